@@ -12,6 +12,8 @@ use serde_json::{json, Map, Value};
 
 pub const PER_BATCH: u64 = 300;
 pub const OPS: usize = 5;
+/// run indices from here on: the K universe gets 1-3 injected EAGAINs at one of its openat2 calls
+pub const EAGAIN_BASE: u64 = 1_000_000_000;
 
 pub fn plan(tier: &str, seed: u64) -> Vec<Batch> {
     let n = match tier {
@@ -23,6 +25,13 @@ pub fn plan(tier: &str, seed: u64) -> Vec<Batch> {
     for i in 0..n {
         for uni in [UniCfg::k(), UniCfg::e()] {
             v.push(Batch { check: "C04".into(), phase: "twin".into(), uni, seed, lo: i * PER_BATCH, hi: (i + 1) * PER_BATCH, fresh: false, tier: tier.into(), extra: Value::Null });
+        }
+    }
+    // the same comparison while the kernel backend has to absorb 1-3 EAGAINs from openat2 (what any
+    // rename or mount elsewhere on the machine causes for lookups through ".."): still equal
+    for i in 0..(n / 3).max(1) {
+        for uni in [UniCfg::k(), UniCfg::e()] {
+            v.push(Batch { check: "C04".into(), phase: "twin-eagain".into(), uni, seed, lo: EAGAIN_BASE + i * PER_BATCH, hi: EAGAIN_BASE + (i + 1) * PER_BATCH, fresh: false, tier: tier.into(), extra: Value::Null });
         }
     }
     v
@@ -64,6 +73,15 @@ pub fn gen_flags(rng: &mut Rng) -> i32 {
 }
 
 pub fn gen_case(seed: u64, idx: u64, uni: &UniCfg) -> Case {
+    if idx >= EAGAIN_BASE {
+        let mut c = gen_case(seed, idx - EAGAIN_BASE + 77_000_000, uni);
+        c.phase = "twin-eagain".into();
+        if !uni.no_openat2 {
+            let mut r = Rng::new(rng::derive(seed, "C04-eagain", idx));
+            c.plan.eagain = Some((r.below(8) as usize, *r.pick(&[1usize, 1, 2, 3])));
+        }
+        return c;
+    }
     let mut rng = Rng::new(rng::derive(seed, "C04", idx));
     let mut wp = gen::WorldParams::swarm(&mut rng);
     wp.decoys = rng.chance(1, 3);
@@ -308,6 +326,13 @@ pub fn compare(seed: u64, rk: coord::CheckResult, re: coord::CheckResult, fixed_
             Op::Resolve { path, .. } | Op::OpenSubpath { path, .. } | Op::Readlink { path, .. } => path.is_empty(),
             _ => false,
         }).unwrap_or(false);
+        // A walk through a loop of links with 4095-byte bodies nests more link levels (each holding
+        // descriptors) than the universe's RLIMIT_NOFILE of 256 allows before either link budget is
+        // used up: EMFILE on one side is the harness's own limit, not an outcome of the backends
+        if kres.contains("EMFILE") != eres.contains("EMFILE") {
+            res.stats.count("skipped.descriptor_limit_of_the_universe", 1);
+            continue;
+        }
         let clause = if kres != eres {
             if empty_path && kres.contains("ENOENT") {
                 "empty-path-not-enoent"
